@@ -262,6 +262,7 @@ func (fc *FnCtx) enterLoop(l *Loop, head *ssa.BasicBlock, iter func(yield func(f
 		pv := fc.freshVal(phi.Name()+"."+phi.Comment, phi.Type())
 		fc.vals[phi] = pv
 		ls.phiVals[phi] = pv
+		fc.recordExisting(pv)
 	}
 	ls.headHeap = fc.cur.clone()
 	// 3. assume invariants
